@@ -47,6 +47,13 @@ impl RespParser {
             return Ok(None);
         }
         
+        // The raw "PING" below may still be arriving: its proper prefixes are incomplete
+        // input, not a protocol error
+        let pending = &self.buffer[self.position..];
+        if pending.len() < 4 && b"PING".starts_with(pending) {
+            return Ok(None);
+        }
+        
         // Special handling for raw protocol (e.g., redis-benchmark sometimes sends raw "PING")
         if self.position + 4 <= self.buffer.len() && 
            &self.buffer[self.position..self.position+4] == b"PING" {
